@@ -719,6 +719,10 @@ def rule_pure(ctx):
                 g = mod.globals.get(n.id)
                 if g is not None and const_int(g) is not None:
                     continue
+                # a tuple of integer literals bound once at module level is a constant too (immutable, never rebound)
+                if isinstance(g, ast.Tuple) and g.elts and all(const_int(x) is not None for x in g.elts) and \
+                        sum(1 for x in ast.walk(mod.tree) if isinstance(x, ast.Name) and x.id == n.id and isinstance(x.ctx, (ast.Store, ast.Del))) == 1:
+                    continue
                 bad_glob.append(n.id)
             elif isinstance(n, (ast.Global, ast.Nonlocal)):
                 bad_glob.append("global statement")
